@@ -186,6 +186,9 @@ def validate(ctx, U, traces, instances, label):
     return rej
 
 
+REPLAY_EXACT = True      # replay() re-executes exactly the stored case
+
+
 def run(ctx):
     ctx.assumptions += ['TLC/SANY and CommunityModules', 'JSON marshalling between Python and TLC',
                         'the projection (kr.key / in / fingerprints / len through the public API; selected keys identified by (fingerprint, half))']
